@@ -327,7 +327,7 @@ func (p *specParser) primary() specExpr {
 }
 
 // callsWithTypeArg: builtins whose listed argument positions are types.
-var typeArgAt = map[string]int{"istype": 1, "zero": 0, "world": 0}
+var typeArgAt = map[string]int{"istype": 1, "zero": 0, "world": 0, "elems": 0, "ptr": 0}
 
 func (p *specParser) postfix(e specExpr) specExpr {
 	for {
